@@ -35,6 +35,7 @@ QNEXT = "<store::fs::query::QueryIterator as std::iter::Iterator>::next"
 
 
 EXPLANATION += ' (R11) = C16.R2 for the records table and the key-ordered index. (R12) the point lookup evaluated (row absent / live / deletion marker / failing read x include-deleted; callers read the records table and forward their own arguments). (R13) the public query builder evaluated: every method sets exactly the field it names to exactly its argument; the conversion into Query copies every field.'
+EXPLANATION += ' (R14, round 9) = C18.R2 / R4 for migration 004: the key-ordered index is rebuilt exactly when it is empty, with a row for every record.'
 
 
 def _names(f, adt):
